@@ -30,6 +30,20 @@ func GenDir(r *core.Rand) pipe.DirPlan {
 	}
 	scale := []int{0, 10, 200, 3000, 50000}[r.Intn(5)]
 	d.LatUs = core.Tape(r, r.Range(1, 6), func() int { return r.Intn(scale + 1) })
+	// TCP style coalescing of back-to-back writes: the receiver finds the end of
+	// one write and the start of the next in one read
+	if r.Chance(0.25) {
+		dens := core.Choice(r, []float64{0.3, 0.7, 1})
+		d.Coalesce = core.Tape(r, r.Range(1, 7), func() int {
+			if r.Chance(dens) {
+				return 1
+			}
+			return 0
+		})
+		if scale == 0 {
+			d.LatUs = []int{r.Range(50, 5000)} // something must still be in flight to be merged with
+		}
+	}
 	// back-pressure: a writer that runs ahead of the reader blocks (net.Pipe, a full TNC buffer)
 	switch r.Pick(14, 3, 3) {
 	case 1:
